@@ -27,10 +27,10 @@ def BOUNDS(tier):
             "keep), add} and one more operation, 1 pre-emption, %s."
             % (("", "2 workers (without 'resize to 0, then to 3', which is in the thorough tier)") if tier == "quick" else
                ("; programs of exactly 3 operations with 1 pre-emption (1..2 workers) and of <= 2 operations with 3 workers and 1 pre-emption",
-                "2 and 3 workers (resize 0 -> 3 with 2 workers only)")))
+                "2 and 3 workers (a final resize to 3 only with 2 workers); the 3-operation program resize 0, resize 3, X with 2 workers is left out (cost)")))
 
 
-HEAVY_FIRST = ("resize3:op1=1", "resize3", "add_follow")
+HEAVY_FIRST = ("BUSY:W3:resize0", "BUSY:W2:resize0:op_last=7", ":n3:op1=4", "resize0:n3", "resize3:op1=1", "resize3", "add_follow")
 OPS = ("add", "add_follow", "add_gated", "release", "resize0", "resize1", "resize2", "resize3", "shutdown_cancel", "shutdown_keep")
 
 
@@ -59,6 +59,10 @@ def jobs(tier):
             more.append(dict(name="W3:%s" % first, workers=3, first=first, nops=2, P=1))
         more = common.shard(more, "op1", len(OPS))
         js += more
+        # growing to three workers on top of stopping / busy ones (five or more threads alive): 300 000+ schedules per program, outside the tier
+        r3 = OPS.index("resize3")
+        js = [j for j in js if not (j["name"].startswith("BUSY:W3") and j["name"].endswith("op_last=%d" % r3))
+              and j["name"] != "W2:resize0:n3:op1=%d" % r3]
     return js
 
 
